@@ -205,7 +205,17 @@ func (e *Env) sortName(s string) (string, types.Type) {
 	case "string":
 		return "Str", types.Typ[types.String]
 	}
-	if strings.HasPrefix(s, "(Array ") || e.g.prog.Specs.Sorts[s] {
+	if strings.HasPrefix(s, "(Array ") {
+		// resolve Go type names inside array sorts: (Array Int Version)
+		k, _ := e.sortName(arrayKeySort(s))
+		v, vt := e.sortName(arrayElemSort(s))
+		if vt != nil {
+			// remember the Go element type of an SMT array value (as a synthetic map type)
+			return "(Array " + k + " " + v + ")", types.NewMap(types.Typ[types.Int], vt)
+		}
+		return "(Array " + k + " " + v + ")", nil
+	}
+	if e.g.prog.Specs.Sorts[s] {
 		return s, nil
 	}
 	if t := e.lookupType(s); t != nil {
@@ -829,7 +839,11 @@ func (e *Env) call(x *spec.Call) TV {
 		return TV{fmt.Sprintf("(<= (oroot %s) %s)", t, g.top(e.cur)), "Bool", nil}
 	case "select":
 		a, i := e.materialize(e.eval(x.Args[0])), e.materialize(e.eval(x.Args[1]))
-		return TV{fmt.Sprintf("(select %s %s)", a.T, i.T), arrayElemSort(a.Sort), nil}
+		var et types.Type
+		if mt, ok := a.Go.(*types.Map); ok && strings.HasPrefix(a.Sort, "(Array ") {
+			et = mt.Elem()
+		}
+		return TV{fmt.Sprintf("(select %s %s)", a.T, i.T), arrayElemSort(a.Sort), et}
 	case "store":
 		a, i, v := e.materialize(e.eval(x.Args[0])), e.materialize(e.eval(x.Args[1])), e.materialize(e.eval(x.Args[2]))
 		return TV{fmt.Sprintf("(store %s %s %s)", a.T, i.T, v.T), a.Sort, nil}
